@@ -251,6 +251,38 @@ CLAIMED["C18"] = {
     "design": "DESIGN.md section 4 C18",
 }
 
+PARSER_NOTE = ("Trusted: the scanners of Model/Lexer.v model Python's re on the 16 token regexes by hand (rule order, regex texts and "
+               "t_ignore are tied to the live lexer by an obligation; behaviour by the correspondence); the LR driver is a 30-line "
+               "replay of PLY's loop over the tables PLY generated (regenerated every run), default reductions included; the "
+               "semantic actions are mirrored by hand; str(float) inside unquoted text is an oracle; \\N{...} escapes are outside.")
+CLAIMED["C10"] = {
+    "text": "PARTIAL. Rocq theorems for EVERY text / token sequence: every token the lexer model produces is the verbatim piece of the "
+            "source at its recorded position (C10_tokens_are_pieces_of_the_source, by an invariant over the scanning loop with a split "
+            "lemma per token rule); the LR driver - whatever the tables - returns a parse tree whose leaves are exactly the accepted "
+            "tokens in order (C10_parse_tree_yields_the_tokens); outcomes are a program, a syntax error or 'outside the model'. "
+            "Obligations over regenerated tables: token rule order, regex texts, t_ignore; grammar size and automaton. NOT proved: "
+            "the round-trip / layout-irrelevance half (completeness of the LALR automaton and lexer boundary lemmas); it is covered "
+            "by differential runs only: random programs x layouts, corruptions, token soups, unquoted multi-word values, compared "
+            "with the real parser node for node, line numbers included.",
+    "note": PARSER_NOTE + " Code limitation modelled faithfully and not counted as a violation of well-formed renderings: unquoted "
+            "multi-word values lose their blanks and re-print numerals (the renderer quotes such text).",
+    "technique": "Rocq proof (lexer/LR soundness for all inputs) over regenerated PLY tables + differential correspondence for the round trip",
+    "design": "DESIGN.md section 4 C10",
+}
+CLAIMED["C11"] = {
+    "text": "Rocq theorems: for EVERY text with LF or CRLF line ends - any arrangement of blank lines, comment lines, trailing "
+            "comments, multi-line arguments, line breaks inside quoted strings - every token carries 1 + the number of line feeds "
+            "before its position (C11_token_lines, by an invariant over the scanning loop; CRLF counted once; per-rule lemmas that "
+            "only newline runs and quoted strings contain line feeds); commands, arguments and values take the line of their first "
+            "token (semantic-action model); parsing is a function of the text alone (no parser state in the model; the code's reset "
+            "is observed by re-using one Parser for the whole stream); every load-time and validation error carries the line of an "
+            "actual command / argument node (C11_error_lines, from the blame theorem of C12). Tied by differential runs incl. "
+            "known-location fault injection and the line the command-line tool marks.",
+    "note": PARSER_NOTE + " Bare-CR line ends are outside the theorem's hypothesis. The CLI display is observed, not modelled.",
+    "technique": "Rocq proof (line invariant of the lexer, error-line theorem) + differential correspondence with history re-use and fault injection",
+    "design": "DESIGN.md section 4 C11",
+}
+
 NOT_YET = "check not built yet (planned with the same technique, see DESIGN.md section 4); not claimed in this commit"
 
 
